@@ -300,7 +300,8 @@ func (b *assignmentBuilder) createWithConverter(lhs, rhs bmodel.Node, converter 
 		}
 
 		rhsNode, ok := b.resolveExpr(converter.Src(), root)
-		if !ok {
+		if !ok || rhsNode.ReturnsError() {
+			// A getter that also returns an error cannot be an argument of the converter.
 			return nil
 		}
 
@@ -425,6 +426,11 @@ func (b *assignmentBuilder) createWithTemplatedMapper(
 func (b *assignmentBuilder) castNode(lhsType types.Type, rhs bmodel.Node) (c bmodel.Node, ok bool) {
 	if types.AssignableTo(rhs.ExprType(), lhsType) {
 		return rhs, true
+	}
+	if rhs.ReturnsError() {
+		// A value that comes together with an error (getter or converter returning (T, error))
+		// can only be assigned as it is: it cannot be the operand of String() or of a conversion.
+		return nil, false
 	}
 
 	if b.opts.Stringer && types.AssignableTo(util.StringType(), lhsType) && util.CompliesStringer(rhs.ExprType()) {
